@@ -14,6 +14,7 @@ def main():
     ap.add_argument("property")
     ap.add_argument("--tier", default=os.environ.get("VERIF_TIER", "quick"))
     ap.add_argument("--replay")
+    ap.add_argument("--write-baseline", action="store_true")
     a = ap.parse_args()
     seed = int(os.environ.get("VERIF_SEED", "0") or 0)
     from pyvc import harness
@@ -28,6 +29,7 @@ def main():
         if "custom" in spec:
             return spec["custom"](a.property, spec, a.tier, seed)
         pc = harness.PropertyCheck(a.property, spec, a.tier, seed)
+        pc.want_baseline = a.write_baseline
         return pc.run()
     except Exception:
         print("CHECKER-ERROR " + traceback.format_exc())
